@@ -179,7 +179,14 @@ class Run:
         required = getattr(self.mod, "REQUIRED", {})
         if callable(required):
             required = required(self.tier)
+        self.waived = []
         for name, minimum in required.items():
+            if self.counters.get(name, 0) == 0 and self.counters.get(name + ".anchor-not-found", 0) > 0:
+                # a monitor that counts executions of a particular statement of the code under test: when the current
+                # source no longer has a statement of that shape (the code was restructured) it cannot observe anything;
+                # that says nothing about the property -- the input-class monitors feeding that code stay required
+                self.waived.append(name)
+                continue
             if self.counters.get(name, 0) < minimum:
                 self.inconclusive.append(
                     f"monitor {name!r} reached {self.counters.get(name, 0)} < {minimum}")
@@ -224,7 +231,8 @@ class Run:
             "seed": self.seed,
             "level": self.mod.LEVEL,
             "coverage": cov,
-            "assumptions": list(getattr(self.mod, "ASSUMPTIONS", [])),
+            "assumptions": list(getattr(self.mod, "ASSUMPTIONS", [])) + [
+                f"monitor {w!r} waived in this run: its source anchor was not found in the current tree" for w in self.waived],
             "wall_s": round(wall, 2),
             "violations": len(real),
         }
